@@ -1,7 +1,7 @@
 (* Counter-examples for the two unrepaired behaviours, and the same histories on the repaired settings.
    Configuration: four keys 0..3 owned by accounts 1..4, standby committee [0;1;2] (size 3, 2 validators),
    validators' address 0, Notary 5, NEO 6, GAS 7. *)
-From NG Require Import Common.Tactics Tokens.Model Tokens.Inv Tokens.OpProofs Tokens.CfgCheck Node.Gov.
+From NG Require Import Common.Tactics Tokens.Model Tokens.Names Tokens.Inv Tokens.OpProofs Tokens.CfgCheck Node.Gov Auth.Permission Auth.PermStore.
 Open Scope Z_scope.
 
 Definition w_cfg (fix7 fix23 : bool) : config :=
@@ -34,7 +34,7 @@ Definition w_cfg47 (fix47 : bool) : config :=
   mkCfg [1;2;3;4]%N [0;1;2]%N 2 [KPlain;KPlain;KPlain;KPlain;KPlain;KNotary;KNeo;KGas] 5 6 7 5200000000000000
         true true true true fix47.
 Definition w_f47 : list (list tx) :=
-  [ [ mkTx 0 100000000 1000000 [] (ODeploy 2) true None;
+  [ [ mkTx 0 100000000 1000000 [] (ODeploy 2 shape_wild) true None;
       mkTx 0 100000000 1000000 [0;1;2]%N (OWhitelist 2 (Some 7)) true None ];
     [ mkTx 0 100000000 1000000 [0;1;2]%N (OWhitelist 2 (Some 900000)) true None ] ].
 
@@ -113,3 +113,27 @@ Lemma gpb_first_of_equal_refuted :
   gpb_at_first (c_gpb (A (reach cfg w_gpb))) 3 = 600000000
   /\ gpb_at_first (c_gpb (A (reinit cfg (reach cfg w_gpb)))) 3 = 200000000.
 Proof. vm_compute. split; reflexivity. Qed.
+
+(* the stored form of a manifest: account 2 deploys a contract whose only permission names every contract but an
+   EXPLICITLY EMPTY method list (it may call nothing).  Read back by [load] the cached state is the same; read back by a
+   FromStackItem that turns an empty method list into the wildcard ([load_bug]) the restarted node would permit a call
+   the running node refuses *)
+Definition shape_none : mshape := mkShape [mk_perm DWild (MList [])] [] [].
+Definition w_mf : list (list tx) := [ [ mkTx 0 100000000 1000000 [] (ODeploy 2 shape_none) true None ] ].
+Lemma w_mf_ok : blocks_ok (w_cfg true true) w_mf.
+Proof. repeat constructor; unfold tx_ok; simpl; discriminate. Qed.
+
+Definition widen (p : permission) : permission :=
+  match p_methods p with MList [] => mk_perm (p_desc p) MWild | _ => p end.
+Definition load_bug (s : mstored) : mcontract :=
+  let c := load s in
+  mkMC (mc_present c) (mc_id c) (mc_counter c) (mc_version c) (map widen (mc_perms c)) (mc_groups c) (mc_safe c).
+
+Lemma manifest_roundtrip_example :
+  let cfg := w_cfg true true in
+  let st := reach cfg w_mf in
+  mc_present (contract_of st 2) = true
+  /\ contract_of (reinit cfg st) 2 = contract_of st 2
+  /\ can_call (mc_perms (contract_of st 2)) mgmt_callee m_update = false
+  /\ can_call (mc_perms (load_bug (aget ms0 (caddr 2) (mg_store (X st))))) mgmt_callee m_update = true.
+Proof. vm_compute. repeat split; reflexivity. Qed.
